@@ -160,7 +160,19 @@ def mentions(v: Any, name: str) -> bool:
 
 
 def int_bounds_from_guard(pc: List[Term], v: Term) -> Tuple[Optional[int], Optional[int]]:
-    """Integer interval of term v implied by comparison atoms `v op const` in a conjunction."""
+    """Integer interval of term v implied by comparison atoms `v op const` in a conjunction; a linear term
+    k*x + c with k > 0 takes its interval from that of x."""
+    if isinstance(v, tuple) and v and v[0] == "lin":
+        lv = Lin.of(v)
+        if len(lv.coef) == 1:
+            (x, k), = lv.coef.items()
+            if isinstance(k, int) and k > 0 and isinstance(lv.const, int):
+                lo_, hi_ = _int_bounds_atom(pc, x)
+                return (None if lo_ is None else k * lo_ + lv.const, None if hi_ is None else k * hi_ + lv.const)
+    return _int_bounds_atom(pc, v)
+
+
+def _int_bounds_atom(pc: List[Term], v: Term) -> Tuple[Optional[int], Optional[int]]:
     lo: Optional[int] = None
     hi: Optional[int] = None
 
@@ -208,7 +220,69 @@ def int_bounds_from_guard(pc: List[Term], v: Term) -> Tuple[Optional[int], Optio
                 upd(g[1], g[3][1])
             elif g[3] == v and T.is_c(g[2]):
                 upd(flip[g[1]], g[2][1])
+        elif g[0] == "cmp" and g[1] == "in" and g[2] == v and isinstance(g[3], tuple) and g[3]:
+            coll = g[3]
+            if coll[0] == "app" and coll[1] in ("range", "builtins.range") and 3 <= len(coll) <= 4 and all(T.is_c(x) and isinstance(x[1], int) for x in coll[2:]):
+                a_, b_ = (0, coll[2][1]) if len(coll) == 3 else (coll[2][1], coll[3][1])
+                if b_ > a_:
+                    upd(">=", a_)
+                    upd("<=", b_ - 1)
+            elif coll[0] in ("tuple", "clist", "cset") and coll[1] and all(T.is_c(x) and isinstance(x[1], int) for x in coll[1]):
+                upd(">=", min(x[1] for x in coll[1]))
+                upd("<=", max(x[1] for x in coll[1]))
 
     for g in pc:
         walk(g)
     return lo, hi
+
+
+def flat_pc(pc: List[Term]) -> List[Term]:
+    out: List[Term] = []
+    for g in pc:
+        if isinstance(g, tuple) and g and g[0] == "and":
+            out.extend(flat_pc(list(g[1:])))
+        else:
+            out.append(g)
+    return out
+
+
+def restrict(v: Any, pc: List[Term]) -> Any:
+    """Specialise a term to a path: `ite` choices and `alt` text alternatives whose guard (or its negation) is
+    among the path's guards are resolved.  A reference term stated as ite(c, a, b) can then be compared with the
+    value a path computes after branching on c at statement level (`if c: return a` / `return b`)."""
+    from .interp import neg
+
+    pcs = flat_pc(list(pc))
+
+    def go(x: Any) -> Any:
+        if isinstance(x, tuple):
+            if len(x) == 4 and x[0] == "ite":
+                if x[1] in pcs:
+                    return go(x[2])
+                if neg(x[1]) in pcs:
+                    return go(x[3])
+                if isinstance(x[1], tuple) and x[1][:2] == ("cmp", "in") and isinstance(x[1][3], tuple) and x[1][3][0] == "tuple":
+                    # membership decided by an equality / by all the disequalities on the path
+                    key, ks = x[1][2], x[1][3][1]
+                    if any(("cmp", "==", key, k) in pcs for k in ks):
+                        return go(x[2])
+                    if all(("cmp", "!=", key, k) in pcs for k in ks):
+                        return go(x[3])
+            if len(x) == 3 and x[0] == "lookup":
+                for k, v in x[1]:
+                    if ("cmp", "==", x[2], k) in pcs:
+                        return go(v)
+            if len(x) == 3 and x[0] == "seq" and isinstance(x[2], tuple):
+                atoms: List[Any] = []
+                for a in x[2]:
+                    if isinstance(a, tuple) and len(a) == 4 and a[0] == "alt" and (a[1] in pcs or neg(a[1]) in pcs):
+                        br = go(a[2] if a[1] in pcs else a[3])
+                        if isinstance(br, tuple) and len(br) == 3 and br[0] == "seq":
+                            atoms.extend(br[2])
+                            continue
+                    atoms.append(go(a))
+                return T.seq(x[1], tuple(atoms))
+            return tuple(go(y) for y in x)
+        return x
+
+    return go(v)
